@@ -150,7 +150,7 @@ Proof. intros g sty reg st e H. unfold step_conn. destruct (st (e_conn e)); try 
 
 Lemma step_fresh : forall g sty reg st e, st (e_conn e) = NotHandshaken ->
   step_conn g sty reg st e =
-  (upd (if snd (step_first g sty reg e) then all_abandoned else st) (e_conn e) (fst (fst (step_first g sty reg e))),
+  (upd (if snd (step_first g sty reg e) then abandon_open st else st) (e_conn e) (fst (fst (step_first g sty reg e))),
    snd (fst (step_first g sty reg e))).
 Proof.
   intros g sty reg st e H. unfold step_conn. rewrite H. destruct (step_first g sty reg e) as [[s o] k]. reflexivity.
@@ -200,7 +200,8 @@ Proof.
       * rewrite upd_other in H by assumption. auto.
     + destruct (Nat.eq_dec c (e_conn e)) as [->|N].
       * rewrite upd_same in H. rewrite H in D. discriminate.
-      * rewrite upd_other in H by assumption. destruct sty; cbn in H; [auto|discriminate].
+      * rewrite upd_other in H by assumption. destruct sty; cbn in H; [auto|].
+        unfold abandon_open in H. destruct (st c); discriminate.
     + destruct (Nat.eq_dec c (e_conn e)) as [->|N]; [rewrite upd_same in H; discriminate|].
       rewrite upd_other in H by assumption. auto.
   - rewrite step_accepted in H by assumption. cbn in H.
@@ -221,7 +222,8 @@ Proof.
       rewrite S in H; cbn in H;
       (destruct (Nat.eq_dec c (e_conn e)) as [->|N];
        [rewrite upd_same in H; try discriminate; rewrite H in D; discriminate|];
-       rewrite upd_other in H by assumption; try (destruct sty; cbn in H; try discriminate); auto).
+       rewrite upd_other in H by assumption;
+       try (destruct sty; cbn in H; try (unfold abandon_open in H; destruct (st c); discriminate)); auto).
   - rewrite step_accepted in H by assumption. cbn in H.
     destruct (Nat.eq_dec c (e_conn e)) as [->|N].
     + rewrite upd_same in H. destruct (step_later_state g sty reg (e_conn e) (e_in e)) as [X|X]; rewrite X in H; discriminate.
@@ -246,7 +248,7 @@ Proof.
     + left. reflexivity.
     + destruct sty; cbn.
       * left. reflexivity.
-      * right. auto.
+      * unfold abandon_open. destruct (st c) eqn:SC; auto.
     + left. reflexivity.
   - rewrite step_accepted by assumption. cbn. left. apply upd_other; assumption.
   - rewrite step_dead by (rewrite E; reflexivity). auto.
@@ -616,7 +618,8 @@ Proof.
     rewrite final_snoc. cbn. rewrite step_fresh by exact Fr. unfold reg_after in X. rewrite X. cbn.
     destruct (Nat.eq_dec (e_conn ce') (e_conn e)) as [E|N].
     + rewrite E, upd_same. exact D.
-    + rewrite upd_other by assumption. reflexivity.
+    + rewrite upd_other by assumption. unfold abandon_open.
+      destruct (s_conns (final g Multiplex init_state pre) (e_conn ce')); reflexivity.
 Qed.
 
 (* a connection that was never written to but is not fresh: the multiplex daemon's loop was ended by such a
